@@ -111,6 +111,13 @@ impl<'a, 'input> Node<'a, 'input> {
         self.inner.tag_name().name()
     }
 
+    /// Returns `true` if the node has a child element with the given tag name.
+    pub(super) fn has_child(&self, tag_name: &str) -> bool {
+        self.inner
+            .children()
+            .any(|child| child.is_element() && child.tag_name().name() == tag_name)
+    }
+
     pub(super) fn attribute_of(&self, name: &str) -> Option<&str> {
         self.attributes.attribute_of(name)
     }
